@@ -54,7 +54,7 @@ class SectionMachine(object):
     """Holds the real section `s` (bare or inside a LASFile) and the model list `M` of records
     {"item": <the real item object>, "orig": str}; `ever_shared` = useful names ever borne by >= 2 items."""
 
-    def __init__(self, base, res, check13=True, check15=True):
+    def __init__(self, base, res, check13=True, check15=True, las=None):
         import lasio
         self.lasio = lasio
         self.res = res
@@ -69,10 +69,12 @@ class SectionMachine(object):
         if self.kind == "bare":
             self.s = lasio.SectionItems()
         else:
-            self.las = lasio.LASFile()
+            self.las = las if las is not None else lasio.LASFile()
             self.s = {"well": self.las.well, "params": self.las.params, "curves": self.las.curves,
                       "version": self.las.version}[self.kind]
-        if self.ci:
+        if las is not None:
+            self.ci = bool(self.s.mnemonic_transforms)
+        elif self.ci:
             self.s.mnemonic_transforms = True
         self.M = [{"item": it, "orig": it.original_mnemonic} for it in list.__iter__(self.s)]
         self.ever_shared = set()
